@@ -73,8 +73,10 @@ def run_cli(cmd, args, cwd=None):
     if cwd:
         os.chdir(cwd)
     try:
+        # standard output and standard error are captured separately: what a command PRINTS (info, info -sf) is judged on
+        # standard output alone; the text returned is standard output followed by standard error
         try:
-            runner = CliRunner(mix_stderr=True)
+            runner = CliRunner(mix_stderr=False)
         except TypeError:
             runner = CliRunner()
         # a command that does not come back (an endless loop in the tool) must not hang the check: interrupt it after a
@@ -104,9 +106,19 @@ def run_cli(cmd, args, cwd=None):
         os.chdir(old)
     if res.exception is not None and isinstance(res.exception, BaseException) and type(res.exception).__name__ == "Hang":
         return ("abort", "Hang"), f"command did not return within {limit:.0f} s"
+    global LAST_STDOUT
+    try:
+        so, se = res.stdout, res.stderr
+    except (ValueError, AttributeError):
+        so, se = res.output, ""
+    LAST_STDOUT = so
+    text = so + se
     if res.exception is not None and not isinstance(res.exception, SystemExit):
-        return ("abort", type(res.exception).__name__), res.output
-    return ("exit", res.exit_code), res.output
+        return ("abort", type(res.exception).__name__), text
+    return ("exit", res.exit_code), text
+
+
+LAST_STDOUT = ""
 
 
 # ---------------------------------------------------------------------------------------- independent codec
